@@ -119,7 +119,7 @@ def gen_case(rng, tier, ctx, i):
         if rng.random() < 0.4:
             bases.append(confgen.gen_config(rng, cid=rng.random() < 0.8))
         else:
-            o = common.varied_opts(rng, tier, p_int=0.2, p_big=0.05, depth=rng.choice([2, 3]), maxfan=3, nleaf=4)
+            o = common.varied_opts(rng, tier, p_int=0.2, p_big=0.05, depth=rng.choice([2, 3]), maxfan=3, nleaf=4, p_subclass=0.25, p_str=0.0)
             rec = common.model_case(rng, tier, o)
             if rec is not None:
                 bases.append(rec)
@@ -175,6 +175,8 @@ def pick_op(rng, entry, ctx):
         if len(ids) > 14:
             return None
         args = [[{rng.choice(ids): rng.choice([-2, -1, 1, 2]) for _ in range(rng.randint(0, 2))} for _ in range(rng.randint(1, 2))], rng.random() < 0.4]
+    elif op == "select_failing_solver":
+        args = [rng.choice(["raise", "none"])]
     elif op == "add":
         cnt = [rng.randint(1000, 9999)]
 
